@@ -24,7 +24,8 @@ def setupOfJson (j : Json) : Except String (Option Setup) := do
         | some e => pure (Behaviour.failsWhenCancelled (← u.getNat?) e)
         | none => pure (Behaviour.untilStopped (← u.getNat?))
       | none => do pure (Behaviour.endsAfter (← jnat b "ends") (joptNat b "exc"))
-    pure (some (.start ⟨← jnat j "tid", action, beh⟩))
+    if jboolD j "late" false then pure (some (.late (← jnat j "cb") ⟨← jnat j "tid", action, beh⟩))
+    else pure (some (.start ⟨← jnat j "tid", action, beh⟩))
   | o => throw s!"bad setup op {o}"
 
 def tlabOfJson (j : Json) : Except String TLab := do
@@ -41,6 +42,7 @@ def tlabOfJson (j : Json) : Except String TLab := do
   | "cleanupTick" => pure (.cleanupTick (← nat 1))
   | "blockLeft" => pure .blockLeft
   | "outcome" => pure (.outcome (← (← a[1]!.getArr?).toList.mapM fun x => x.getNat?))
+  | "lateStarted" => pure (.lateStarted (← nat 1))
   | "taskSaw" => pure (.taskSaw (← nat 1) (← (← a[2]!.getArr?).toList.mapM fun x => x.getNat?))
   | t => throw s!"bad task label {t}"
 
